@@ -566,14 +566,21 @@ func c09Sequence(x *mc.Exec) {
 		rules []string
 		size  uint
 		num   uint
+		// given: the slice actually handed to Range when it is a part of a longer list the caller
+		// keeps (nil = a private copy of rules)
+		given []string
 	}
+	// the caller's own rule list, of which it also passes prefixes: Range must leave it alone
+	shared := []string{"k", "s", "id"}
 	menu := []call{
-		{"A page 1 of 2", itemsA, []string{"k", "id"}, 2, 1},
-		{"A whole", itemsA, []string{"-k", "id"}, 10, 0},
-		{"B whole reversed", itemsB, []string{"-id"}, 4, 0},
-		{"B page 0 of 2", itemsB, []string{"k"}, 2, 0},
-		{"A page 0 of 3", itemsA, []string{"s", "id"}, 2, 0},
-		{"B empty page", itemsB, nil, 3, 5},
+		{"A by the first rule of the caller's list [k s id]", itemsA, []string{"k"}, 10, 0, shared[:1]},
+		{"A by the caller's whole list [k s id]", itemsA, []string{"k", "s", "id"}, 10, 0, shared[:3]},
+		{"A page 1 of 2", itemsA, []string{"k", "id"}, 2, 1, nil},
+		{"A whole", itemsA, []string{"-k", "id"}, 10, 0, nil},
+		{"B whole reversed", itemsB, []string{"-id"}, 4, 0, nil},
+		{"B page 0 of 2", itemsB, []string{"k"}, 2, 0, nil},
+		{"A page 0 of 3", itemsA, []string{"s", "id"}, 2, 0, nil},
+		{"B empty page", itemsB, nil, 3, 5, nil},
 	}
 	colA, colB := c09Collection(impl, d, itemsA), c09Collection(impl, d, itemsB)
 	var pages []j.Collection
@@ -586,7 +593,11 @@ func c09Sequence(x *mc.Exec) {
 			col = colB
 		}
 		var page j.Collection
-		if p := Try(func() { page = j.Range(col, nil, nil, append([]string{}, c.rules...), c.size, c.num) }); p != "" {
+		arg := append([]string{}, c.rules...)
+		if c.given != nil {
+			arg = c.given
+		}
+		if p := Try(func() { page = j.Range(col, nil, nil, arg, c.size, c.num) }); p != "" {
 			x.Fail("C09:sequence:panic", "%s then %s panicked: %s", desc, c.name, p)
 			return
 		}
@@ -616,7 +627,7 @@ func c09Sequence(x *mc.Exec) {
 func init() {
 	Register(&Prop{
 		ID: "C09",
-		Rule: "Engine A, all choices Full: (a) 28 kinds x 4 collection implementations (SoftCollection, WrapperCollection, Resources of soft / of wrapped resources) x every assignment of a 3-value alphabet of the kind (incl. nil for nullable kinds, values above 2^63 for uint64, for the 64-bit kinds a 5-value alphabet with 2^53 / 2^53+1 and MaxInt64 / MaxInt64-1, which collide as float64, byte strings [1 2]/[2 1]/[1 2 3], ties) to 3 (thorough 4) resources x all 31 rule lists of length <= 2 over {k,-k,s,id,-id} (incl. the empty list) and, inside each case, ALL initial orders of the collection and page sizes 1, 2, n with every page number; (b) 4 implementations x n in 0..4 x every ID subset (+ unknown/repeated ids) x 5 filters x 4 rule lists x 9 sizes (0,1,2,n,n+1,2^63-1,2^63,2^64-1,3) x 5 page numbers with number*size < 2^63. (d) 14-resource collections (beyond the 12-element insertion-sort threshold of sort.Sort) for 28 kinds x 4 implementations x 31 rule lists x 18 structured initial orders; (c) every sequence of 3 Range calls from a menu of 6 (two collections, several page geometries) with all results retained and read only at the end. Oracle: independent select / filter / comparator (nil first, '-' reverses, later rules break ties) / slice; exact ID sequence and independence from the initial order when the rules contain id, otherwise sortedness + partition + page lengths; result non-nil, no panic, input collection unchanged. Non-trivial = every sort case; page cases that are neither empty nor complete",
+		Rule: "Engine A, all choices Full: (a) 28 kinds x 4 collection implementations (SoftCollection, WrapperCollection, Resources of soft / of wrapped resources) x every assignment of a 3-value alphabet of the kind (incl. nil for nullable kinds, values above 2^63 for uint64, for the 64-bit kinds a 5-value alphabet with 2^53 / 2^53+1 and MaxInt64 / MaxInt64-1, which collide as float64, byte strings [1 2]/[2 1]/[1 2 3], ties) to 3 (thorough 4) resources x all 31 rule lists of length <= 2 over {k,-k,s,id,-id} (incl. the empty list) and, inside each case, ALL initial orders of the collection and page sizes 1, 2, n with every page number; (b) 4 implementations x n in 0..4 x every ID subset (+ unknown/repeated ids) x 5 filters x 4 rule lists x 9 sizes (0,1,2,n,n+1,2^63-1,2^63,2^64-1,3) x 5 page numbers with number*size < 2^63. (d) 14-resource collections (beyond the 12-element insertion-sort threshold of sort.Sort) for 28 kinds x 4 implementations x 31 rule lists x 18 structured initial orders; (c) every sequence of 3 Range calls from a menu of 8 (two collections, several page geometries, rule lists that are prefixes of one list the caller keeps) with all results retained and read only at the end. Oracle: independent select / filter / comparator (nil first, '-' reverses, later rules break ties) / slice; exact ID sequence and independence from the initial order when the rules contain id, otherwise sortedness + partition + page lengths; result non-nil, no panic, input collection unchanged. Non-trivial = every sort case; page cases that are neither empty nor complete",
 		Harnesses: []Harness{
 			{Name: "C09/sort", Body: c09Sort},
 			{Name: "C09/page", Body: c09Page},
